@@ -82,7 +82,7 @@ def same(a, b, mode='exact', path='$'):
                 return d
         return None
     if k == 'grid':
-        if a[1] != b[1]:
+        if a[1] != b[1] and not _same_version(a[1], b[1]):
             return (path + ':ver', a[1], b[1])
         d = _same_items(a[2], b[2], mode, path + ':meta')
         if d:
@@ -106,6 +106,15 @@ def same(a, b, mode='exact', path='$'):
     if a != b:
         return (path, a, b)
     return None
+
+
+def _same_version(a, b):
+    """'02.0', '2.0' and '2.0.0' spell the same version (the printed form of a Version is normalised)."""
+    from . import refversion
+    try:
+        return refversion.cmp(a, b) == 0
+    except (ValueError, TypeError):
+        return False
 
 
 def _same_items(xa, xb, mode, path):
